@@ -603,6 +603,58 @@ def rule_G5(prog, fixture=False):
                 continue
             for (c, p) in atoms_of(fact.cond, fact.pol):
                 clauses.append((_clause(c, p, gal), c, p, fact))
+    # case analysis over a two-way branch outside loops:  if (m > 0) CHECK(stop >= start) else CHECK(stop <= start)
+    # every normally completing path satisfies (branch outcome + what the paths of that outcome establish), for one of the outcomes
+    case_facts = []
+    helpers = []
+    for cnode in f.walk():
+        if cnode.k == "CXXMemberCallExpr" and cnode.callee and cnode.callee.get("cls") == f.cls and cnode.callee.get("repo"):
+            g = prog.functions.get(cnode.callee["usr"])
+            loc = f.block_of(cnode)
+            if g is not None and loc is not None and not (f.exit in f.reachable(f.entry, removed_blocks=set(tbk) | {loc[0]}) and loc[0] != f.entry):
+                gal = {}
+                for i, prm in enumerate(g.params):
+                    args = cnode.call_args()
+                    if i < len(args):
+                        t = _term(args[i], alias)
+                        if t:
+                            gal[prm["n"]] = t
+                helpers.append((g, gal))
+    for (g, gal) in [(f, alias)] + helpers:
+        g.blocks
+        seen_b = set()
+        for (b, si, s_, cn, pol) in g.branch_edges():
+            if b.id in seen_b or len(b.succs) != 2 or any(x is None for x in b.succs):
+                continue
+            seen_b.add(b.id)
+            if b.id in g.reachable(b.succs[0]) or b.id in g.reachable(b.succs[1]):
+                continue          # inside a loop: a path can take both outcomes
+            if not all(g.normal_exit_reachable_from(x) for x in b.succs):
+                continue          # a plain guard: already a fact
+            tn = g.nodes.get(b.term) if b.term is not None else None
+            if (tn is not None and tn.is_belief()) or cn.is_belief():
+                continue
+            dnf = []
+            for keep in (0, 1):
+                outcome = [(e_[3], e_[4]) for e_ in g.branch_edges() if e_[0].id == b.id and e_[1] == keep]
+                if not outcome:
+                    dnf = None
+                    break
+                cj_ = []
+                for (c, p) in atoms_of(outcome[0][0], outcome[0][1]):
+                    cl = _clause(c, p, gal)
+                    if cl is not None and len(cl) == 1:
+                        cj_.append((cl[0], True))
+                for fact in g.facts_at_block(g.exit, normal_exit=True, assume=[(b.id, 1 - keep)]):
+                    if fact.belief:
+                        continue
+                    for (c, p) in atoms_of(fact.cond, fact.pol):
+                        cl = _clause(c, p, gal)
+                        if cl is not None and len(cl) == 1:
+                            cj_.append((cl[0], fact.rejects_by_throw))
+                dnf.append(cj_)
+            if dnf:
+                case_facts.append((dnf, cn))
     required = [
         ("empty-array", [_Lit(N, None, _interval("!=", 0), "n != 0")], "an empty array"),
         ("zero-step", [_Lit(M, None, _interval("!=", 0), "m != 0")], "a zero step"),
@@ -630,6 +682,16 @@ def rule_G5(prog, fixture=False):
                 weak = (i, fact)
         key = "G5:base_slice_t:%s" % name
         extra = {"props": ["C04", "C05"]}
+        if hit is None:
+            for (dnf, cn) in case_facts:
+                if all(any(l.entails(r) and thr for (l, thr) in cj_ for r in req) for cj_ in dnf):
+                    res.add(key, DISCHARGED, "%s:%d" % (prog.rel(f.file), cn.line), "slice creation rejects %s" % what,
+                            "live throwing guards in both outcomes of (%s): each outcome either cannot be this case or checks it" % cn.text(),
+                            func=f.name, extra=extra)
+                    hit = "case"
+                    break
+            if hit == "case":
+                continue
         if hit is not None:
             used.add(hit[0])
             res.add(key, DISCHARGED, "%s:%d" % (prog.rel(f.file), hit[1].cond.line), "slice creation rejects %s" % what,
